@@ -2,7 +2,8 @@
 
 Claimed at level `exploration` (DESIGN section 7): TLC evaluates an exact integer/rational reference on
 enumerated operand families and checks the algebraic clauses of the statement on the reference; every row
-of the dumped table is then executed on the real desper.math classes with int and Fraction operands.
+of the dumped table is then executed on the real desper.math classes with int and Fraction operands, and
+with operands built through trivial subclasses of the vector and matrix classes.
 """
 import json
 from collections import Counter
@@ -28,6 +29,9 @@ RULE = ('one case = one (operation, operands) row enumerated by Init of VecMath.
 
 ASSUMPTIONS = [
     'A @ v treats v as a row vector (v times the written grid), the only reading under which the stated (A @ B) @ v == B @ (A @ v) holds',
+    'vectors and matrices are instances of Vec2/Vec3/Vec4/Mat3/Mat4 or of trivial user-defined subclasses of them (every second '
+    'row runs a third time with subclass operands); a result counts as a Vec3 (...) if it is an instance of it: neither the base class nor '
+    'the subclass is demanded',
     'exact comparison (==) for + - * / dot cross lerp scale clamp swizzle @ transpose ~ and the constructors on Fraction operands; '
     'tolerance %g relative to the largest expected entry (at least 1) for sqrt/angle operations, orthogonal_projection (float literal 2.0) '
     'and for proper-rational results on int operands (float division)' % TOL,
@@ -126,13 +130,15 @@ def run_table(res, name, c, acc, procs=None):
                                  list(d['expected'].values())[0], list(d['observed'].values())[0]), d)
     if st.n_violations:
         ad = VecMathAdapter(desper)
+        ad.sub_every = 1          # (every facet on every row: the share of rows is counted per adapter)
         div = res.cov.setdefault('diverging_rows_by_operation', {})
         for i in g.init:
             pre, post = g.states[i], g.states[g.out[i][0][2]]
             obs, exp = ad.step('Eval', (), pre), ad.expect('Eval', (), pre, post)
             if not all(exp[f](obs[f]) for f in exp):
-                k = '%s/%s' % (pre['op'], '+'.join(type(ad.build(kd, v, False)).__name__ for kd, v in zip(OPS[pre['op']][0], pre['args'])))
-                div[k] = div.get(k, 0) + 1
+                for sub in sorted({f == 'sub' for f in exp if not exp[f](obs[f])}):
+                    k = '%s/%s' % (pre['op'], '+'.join(type(ad.build(kd, v, False, sub)).__name__ for kd, v in zip(OPS[pre['op']][0], pre['args'])))
+                    div[k] = div.get(k, 0) + 1
     ad = VecMathAdapter(desper)
     for i in g.init:          # one telling row per operation family as sample
         pre, post = g.states[i], g.states[g.out[i][0][2]]
@@ -190,8 +196,8 @@ def replay(res, path):
     for facet in d['facets']:
         exp = json.loads(d['expected'][facet])
         rec = FD({k: (_tup(v) if isinstance(v, list) else v) for k, v in exp.items()})
-        obs = ad.call(op, args, facet == 'frac')
-        ok = Expect(rec, facet == 'frac')(obs)
+        obs = ad.call_facet(op, args, facet)
+        ok = Expect(rec, facet != 'int')(obs)
         print('%s%r [%s operands]\n  expected %s\n  observed %r\n  -> %s' % (op, args, facet, exp, obs, 'agrees' if ok else 'DIFFERS'))
         res.traces += 1
         if not ok:
